@@ -9,7 +9,7 @@ CLAIMED = {
     text="ORDER/TABLE/WHO rules over misc/mke2fs.c and what it reaches: the quota files (a snapshot of all usage) are written after every step that can still allocate an inode or block (orphan file, huge files, -d population) and only the close follows, usage computed before they are written; "
          "each feature owning an on-disk object (resize_inode, has_journal, orphan_file, mmp, quota, bigalloc fix-up) has its creator call in main, conditional on that feature, and a creator's failure ends the run non-zero; root directory, lost+found, reserved-inode marks and bad-block inode are created on every full run after table allocation; "
          "PRS dominates every write-capable call of main; every wall-clock read reachable from main yields to fs->now (E2FSPROGS_FAKE_TIME / SOURCE_DATE_EPOCH) or is a listed non-persistent use (one reason each), the wrapper ext2fsP_get_time prefers fs->now; UUID and hash seed are generated only when none was given (or overwritten by the given one). "
-         "blocks temporarily un-marked in the block map (bad blocks, for the overhead computation) are marked again before anything allocates; `mke2fs -n` is decided under C13.d and backup wiring under C20. Decides ordering/wiring/determinism-source clauses for every configuration; does NOT decide geometry arithmetic (group and table placement, overhead, free counts): seed C07-1 (wrong count passed to an accounting helper) is of that kind and is not caught.",
+         "blocks temporarily un-marked in the block map (bad blocks, for the overhead computation) are marked again before anything allocates; `mke2fs -n` is decided under C13.d and backup wiring under C20. Decides ordering/wiring/determinism-source clauses for every configuration; every loop of the allocation/accounting code that consumes a total in pieces hands its callees the piece, not the running total (generic piecewise-loop rule; this is what catches seed C07-1). Does NOT decide geometry arithmetic (group and table placement, overhead, free counts).",
     ref="§8.6 C07", technique="static analysis: call-graph MAY summaries after an ordering point, feature/creator table with control dependence and error-exit classification, who-may-call for time sources with an exemption table"),
  "C10": dict(
     text="Typestate/ORDER/PAIRING rules over lib/ext2fs/{link,unlink,mkdir}.c, debugfs/debugfs.c, misc/create_inode.c and every directory-iterator callback of the tree: a callback that changed an entry reports DIRENT_CHANGED on every non-error return; "
@@ -44,7 +44,7 @@ CLAIMED = {
          "copies into the buffer are paired with the dirty mark, copies out are preceded by sync and a filling load; flush allocates/converts before writing, writes to the mapped block, clears dirty only after a successful write; "
          "close flushes before freeing and returns the error; a size change writes out and drops the buffer before zeroing/freeing on disk; only the buffer routines store the cached block numbers; "
          "a block found by the free-block search routines and then used is marked in use on every succeeding path (7 call sites; fallocate's probe idiom excluded with its reason); "
-         "no zero-extended 32-bit complement mask on a 64-bit offset/size/block number in the data path. "
+         "no zero-extended 32-bit complement mask on a 64-bit offset/size/block number in the data path; every piecewise loop of the data path hands its callees the piece, not the running total; every routine returning file content limits it by i_size. "
          "Decides the buffer typestate and allocation-marking discipline for every operation history; does NOT decide read-back equality itself, extent split/merge, punch range arithmetic or inline-data lengths.",
     ref="§8.6 C09", technique="static analysis: typestate over clang CFGs (dominance, edge-gated reachability, control-dependence purity), path-sensitive error-flow and use-implies-mark exploration, operand-width facts"),
  "C06": dict(
